@@ -52,6 +52,10 @@ def scenario_specs(ctx):
         spec = simdrv.lattice_spec(n=n, moves=moves, workers=W, steps=0, seed=int(rng.integers(0, 2**31)), wall=int(rng.choice([-1, -2])),
                                    n_jumps=int(rng.choice([1, 2])), maxlength=int(rng.choice([30, 300])), delete_old=dl != "off", delete_old_all=dl == "all",
                                    zeroswap=float(rng.choice([0.5, 1.0])))
+        if k % 5 == 3:  # lambda_-1 variant of [0-]
+            spec["lm1"], spec["wall"] = -1.5, -4
+        if k % 2 == 1:  # translated copy of the system (lambda_0 or lambda_-1 on 0.0)
+            spec["origin"] = spec["lm1"] if spec.get("lm1") is not None else 0.5
         out.append({"spec": spec, "N": int(rng.integers(22, 34)), "policy": str(rng.choice(["oldest", "random", "newest"])), "pseed": int(rng.integers(0, 999)),
                     "after_restart": bool(k % 3 == 2)})
     return out
